@@ -490,7 +490,8 @@ def check_history(res, ctx, cfg, tr):
 # --------------------------------------------------------------------------------------------- what the root finder is offered
 OFFER_TYPES = ("static_conditions", "chained_conditional", "conditional_chained")
 OFFER_CHAINS = (("Log",), ("Lin",), ("Log", "Lin"), ("Lin", "Log"), ("Square", "Log"))
-OFFER_FLAGS = ({}, {"rref_preserv": True}, {"rref_equil": True}, {"rref_equil": True, "rref_preserv": True})
+# (new_eq_params is an option of the get_neqsys_<type> methods themselves: get_neqsys hands on the two rref flags only)
+OFFER_FLAGS = ({}, {"rref_preserv": True}, {"rref_equil": True}, {"rref_equil": True, "rref_preserv": True}, {"new_eq_params": False}, {"new_eq_params": False, "rref_preserv": True})
 
 
 def offer_sequences(tier):
@@ -500,7 +501,7 @@ def offer_sequences(tier):
     for ntype in OFFER_TYPES:
         for chain in OFFER_CHAINS:
             for fa, fb in itertools.permutations(range(len(OFFER_FLAGS)), 2):
-                if tier == "quick" and len(chain) == 1 and (fa, fb) not in ((1, 0), (2, 0), (3, 0), (0, 3)):
+                if tier == "quick" and len(chain) == 1 and (fa, fb) not in ((1, 0), (2, 0), (3, 0), (0, 3), (4, 0), (0, 4), (5, 4)):
                     continue
                 out.append([[ntype, list(chain), fa], [ntype, list(chain), fb]])
     return out
@@ -518,7 +519,10 @@ def seq_offered(idx, order, variant, seq):
         try:
             with warnings.catch_warnings():
                 warnings.simplefilter("ignore")
-                neq = ctx._mk_eqsys().get_neqsys(ntype, NumSys=tuple(_numsys(c) for c in chain), **flags)
+                if "new_eq_params" in flags:
+                    neq = getattr(ctx._mk_eqsys(), "get_neqsys_" + ntype)(NumSys=tuple(_numsys(c) for c in chain), **flags)
+                else:
+                    neq = ctx._mk_eqsys().get_neqsys(ntype, NumSys=tuple(_numsys(c) for c in chain), **flags)
                 if ntype == "conditional_chained":
                     stages = list(neq.neqsys_factory(()).neqsystems)
                 elif ntype == "chained_conditional":
@@ -529,7 +533,9 @@ def seq_offered(idx, order, variant, seq):
             for st, cname in zip(stages, chain):
                 tr = TRANSFORMS[cname][0]
                 xs = transform_exact(tr, ctx.cvec())
-                ps = [_R(x) for x in ctx.init((0,) * ctx.nr, "milli")] + [_R(k) for k in ctx.K]
+                ps = [_R(x) for x in ctx.init((0,) * ctx.nr, "milli")] + ([_R(k) for k in ctx.K] if flags.get("new_eq_params", True) else [])
+                if len(ps) != len(st.params):
+                    raise ValueError("%d parameters, expected %d" % (len(st.params), len(ps)))
                 sub = dict(zip(st.x, xs))
                 sub.update(dict(zip(st.params, ps)))
                 worst = max([abs(sp.N(sp.sympify(e).subs(sub), 50)) for e in st.exprs] or [0])
